@@ -353,6 +353,9 @@ func TestC04_DeepCopy(t *testing.T) {
 		if p, ok := shared["map"]; ok {
 			rt.Fatalf("DeepCopy(t) returns a tree whose list map at %s is the very map object of t (variant %s)\ntree:\n%s", p, v.Name, m.Dump())
 		}
+		if p, ok := shared["bin-spare"]; ok {
+			rt.Fatalf("DeepCopy(t) returns a tree whose zero-length binary value at %s is the slice of t itself, spare capacity included: an append on one side writes where an append on the other side writes (variant %s)\ntree:\n%s", p, v.Name, m.Dump())
+		}
 		target, other, want := cp, orig, m
 		if side == "original" {
 			target, other, want = orig, cp, mcp
@@ -458,6 +461,9 @@ func TestC04_Merge(t *testing.T) {
 		}{{"a", shA}, {"b", shB}} {
 			if p, ok := sh.m["map"]; ok {
 				rt.Fatalf("MergeStructs(a,b) returns a tree whose list map at %s is the very map object of input %s (emptyMaps option: %v)\n%s", p, sh.n, emptyMaps, ctx())
+			}
+			if p, ok := sh.m["bin-spare"]; ok {
+				rt.Fatalf("MergeStructs(a,b) returns a tree whose zero-length binary value at %s is the slice of input %s itself, spare capacity included\n%s", p, sh.n, ctx())
 			}
 		}
 		var desc string
